@@ -103,6 +103,38 @@ class Registry:
         self.spec_names[name] = VFunc(node, None, None, name)
         self.spec_src[name] = (sig, body)
 
+    def ufunc(self, name, argshapes, retshape, native=None):
+        """uninterpreted spec function (abstract result of a parser etc.), usable in clauses"""
+        import z3
+        from .values import parse_shape, leaf_sorts, unflatten, flatten, VBuiltin, VSet, StrS, BoolS, IntS
+        args = [parse_shape(a, self.models) for a in argshapes]
+        ret = parse_shape(retshape, self.models)
+        dom = []
+        for a in args:
+            dom += leaf_sorts(a)
+        if isinstance(ret, tuple) and ret[0] == "set":
+            rsorts = [z3.ArraySort({"str": StrS, "bytes": StrS, "int": IntS}[ret[1]], BoolS)]
+        else:
+            rsorts = leaf_sorts(ret)
+        fns = [z3.Function(f"uf_{name}_{i}", *(dom + [rs])) for i, rs in enumerate(rsorts)]
+
+        def impl(interp, a, k, n):
+            from .lib import coerce
+            leaves = []
+            from .values import VOpt
+            for v, sh in zip(a, args):
+                if isinstance(v, VOpt) and not (isinstance(sh, tuple) and sh[0] == "opt"):
+                    v = v.val if interp.spec else interp.need(v)
+                leaves += flatten(coerce(interp, v, sh), sh)
+            outs = [f(*leaves) for f in fns]
+            if isinstance(ret, tuple) and ret[0] == "set":
+                return VSet(outs[0], ret[1])
+            return unflatten(ret, outs)
+        self.spec_names[name] = VBuiltin("ufunc:" + name, impl)
+        self.ufunc_native = getattr(self, "ufunc_native", {})
+        if native is not None:
+            self.ufunc_native[name] = native
+
     def table(self, prop, name):
         def deco(fn):
             self.tables.append((prop, name, fn))
